@@ -1,6 +1,6 @@
 (* Extraction of the executable model.  ExtrOcamlBasic only: bool, option, list, prod,
    unit, sumbool map to OCaml's; N, positive, nat stay Coq inductives. *)
-From KV Require Import Bytes Crc Chunk Record Engine Script Crash Index.
+From KV Require Import Bytes Crc Chunk Record Engine Script Crash Index LockTable.
 Require Import ExtrOcamlBasic.
 Extraction Language OCaml.
 Extraction "model.ml"
@@ -11,4 +11,5 @@ Extraction "model.ml"
   db_open db_close db_put db_get db_delete db_list_keys db_fold db_stat db_sync
   new_batch batch_put batch_get batch_delete batch_commit db_merge db_backup db_files
   lf_crash idx_get mkCfg mkDisk lf_empty step run crash_open crash_disk fs_replay fs_empty
-  db_read di_new di_rewind di_seek di_next di_valid di_cur shards_of.
+  db_read di_new di_rewind di_seek di_next di_valid di_cur shards_of
+  lstep lrun holder.
